@@ -102,6 +102,10 @@ Thank you osask project !`)
 		os.Exit(17)
 	}
 
+	if err := gen.CheckNesting([]byte(src)); err != nil {
+		fmt.Printf("GOSK : failed to parse %s\n%+v", assemblySrc, err)
+		os.Exit(-1)
+	}
 	parseTree, err := gen.Parse("", []byte(src), gen.Entrypoint("Program"), gen.Debug(*debug))
 	if err != nil {
 		fmt.Printf("GOSK : failed to parse %s\n%+v", assemblySrc, err)
